@@ -142,8 +142,8 @@ def lean_phase(cfg, pid, tier, cmds):
             else:
                 problems.append(f"theorem {ob['name']} not discharged (axioms: {ob['axioms']})")
         if tier == "thorough":
-            lc = run(["lake", "env", "leanchecker", props_mod], cwd=LEAN, timeout=3600)
-            cmds.append(f"(cd lean && lake env leanchecker {props_mod})")
+            lc = run(["lake", "env", "leanchecker"] + mods, cwd=LEAN, timeout=3600)
+            cmds.append(f"(cd lean && lake env leanchecker {' '.join(mods)})")
             if lc.returncode != 0:
                 problems.append("leanchecker failed: " + (lc.stdout + lc.stderr)[-300:])
     return obligations, problems
